@@ -399,10 +399,12 @@ class NormalizeMeanToMid(NormalizeCurve):
         raw_values = [low_value, low_mean, mean_value, high_mean, high_value]
         normal_values = kwargs["NormalValues"][:]
 
-        if raw_values[-1] == raw_values[-2]:
+        # The means are computed in floating point: the mean of cells that all equal the extreme value may differ from
+        # it in the last bit, which would leave two control points a rounding error apart
+        if numpy.isclose(raw_values[-1], raw_values[-2]):
             del raw_values[-2]
             del normal_values[-2]
-        if raw_values[0] == raw_values[1]:
+        if numpy.isclose(raw_values[0], raw_values[1]):
             del raw_values[1]
             del normal_values[1]
 
